@@ -66,6 +66,25 @@ void args_run_and_judge(struct cat_command *c, const uint8_t *args, size_t n, co
 {
         int nv = (int)c->var_num;
         for (int j = 0; j < nv; j++) memcpy(before[j], c->var[j].data, c->var[j].data_size);
+        if (chance(10)) {
+                /* the application had (some of) the variables locked before: a request was served under other access flags, then the flags were set to what
+                 * this line is judged with (the table belongs to the application; like the disable flags, the access flags are looked at when a request is served) */
+                cat_var_access keep[MAXVAR]; struct cat_variable *vv = (struct cat_variable *)c->var;
+                for (int j = 0; j < nv; j++) { keep[j] = vv[j].access; vv[j].access = chance(70) ? CAT_VAR_ACCESS_READ_ONLY : (cat_var_access)rn(3); }
+                unsigned form = rn(4);
+                in_reset(); in_puts("AT+S");
+                if (form < 2) { if (!target_implicit) in_putc('='); in_put(args, n); } else if (form == 2 && !target_implicit) in_puts("?"); else if (!target_implicit) in_puts("=?");
+                in_putc('\n');
+                ON_READ = NULL;
+                if (run_quiet(quiet_bound() + 4 * (long)n) < 0) { inconclusive("no quiescence (C15's subject)"); return; }
+                for (int j = 0; j < nv; j++) { vv[j].access = keep[j]; memcpy(vv[j].data, before[j], vv[j].data_size); }
+                CNT("lines_after_a_request_served_under_other_access_flags");
+        }
+        uint8_t *a2 = NULL;
+        if (target_implicit && chance(15)) {      /* "AT+S=<arguments>" to an implicit-write command: the '=' is the first argument byte */
+                a2 = xalloc(n + 1); a2[0] = '='; memcpy(a2 + 1, args, n); args = a2; n++;
+                CNT("implicit_write_lines_with_an_equals_sign_in_front_of_the_arguments");
+        }
         nvw = 0; wh_calls = 0; wh_argsnum = 0;
         in_reset(); in_puts(chance(50) ? "AT+S" : "at+s"); if (!target_implicit) in_putc('='); else CNT("lines_to_an_implicit_write_command"); in_put(args, n); in_putc('\n');
         late_event_at = (NOISE_CMD && chance(50)) ? (long)INLEN - 1 - (long)rn(3) : -1;
